@@ -18,6 +18,18 @@ for id in "${IDS[@]}"; do
   rc=$?
   case $rc in 0) r=OK;; 1) r=VIOLATION;; *) r=INCONCLUSIVE;; esac
   echo "$NAME $id $r $(echo "$out" | grep -A1 -E '^(VIOLATION|INCONCLUSIVE)' | tail -1 | cut -c1-220)"
+  # MATRIX_KEEP=<dir>: keep up to two shrunk replays per (change, check) for the regress/ collection
+  if [ -n "$MATRIX_KEEP" ] && [ $rc -eq 1 ]; then
+    n=0
+    for f in "$S/out/replays/$id"/*.json; do
+      [ -f "$f" ] || continue
+      case "$f" in *crash-*) continue;; esac
+      grep -q '"engine": "e5"' "$f" && continue
+      mkdir -p "$MATRIX_KEEP/$NAME/$id"; cp "$f" "$MATRIX_KEEP/$NAME/$id/"
+      n=$((n+1)); [ $n -ge 2 ] && break
+    done
+  fi
+  rm -rf "$S/out/replays"
 done
 git -C /repo worktree remove --force "$S/repo"
 rm -rf "$S"
